@@ -1022,7 +1022,22 @@ fn run_h(w: &[&str]) -> (String, String) {
     } else {
         let mut sep = vec![argv[0].clone()];
         sep.extend(separate_so(&argv[1..], false));
-        spelling_oracle(false, &obs, (sep != argv).then(|| observe_sh(&sep)))
+        let first = spelling_oracle(false, &obs, (sep != argv).then(|| observe_sh(&sep)));
+        // `--name=ARG` as the first argument means `--name ARG` for the options that take an argument
+        let eq = argv.get(1).and_then(|a| a.strip_prefix("--")).and_then(|b| b.split_once('=')).and_then(|(n, v)| {
+            (!n.is_empty() && ("profile".starts_with(n) || "rcfile".starts_with(n))).then(|| {
+                let mut w = vec![argv[0].clone(), format!("--{n}"), v.to_string()];
+                w.extend_from_slice(&argv[2..]);
+                w
+            })
+        });
+        match eq {
+            Some(w) if !first.starts_with("FAIL") => {
+                let o2 = observe_sh(&w);
+                if o2 == obs { "ok".to_string() } else { format!("FAIL:`--name=ARG` differs from `--name ARG`: {o2}") }
+            }
+            _ => first,
+        }
     };
     (obs, oracle)
 }
@@ -1081,11 +1096,13 @@ const T_TOKENS: [&str; 40] = [
     "portable", "--portable", "-oportable", "--no", "--e", "-C", "nounset", "+C", "", "-e-", "++", "-oErr-Exit", "-n",
 ];
 const H_ARG0: [&str; 4] = ["yash", "-yash", "/bin/sh", "sh"];
-const H_TOKENS: [&str; 50] = [
+const H_TOKENS: [&str; 60] = [
     "-c", "-s", "-cs", "-i", "-e", "-ec", "+e", "-V", "-eV", "+V", "-o", "errexit", "-oerrexit", "--errexit", "++errexit",
     "--profile", "--profile=p", "--pro", "--rcfile=r", "--norcfile", "--noprofile", "--nopro", "--help", "--version",
     "--ver", "--help=x", "++help", "--", "-", "cmd", "script", "--portable", "-oportable", "-ce", "+c", "--no", "--n",
     "--posixlycorrect", "-l", "--login", "-Z", "--zz", "+s", "-eo", "--r", "", "-oErr-Exit", "err-exit", "--interactive", "--cmdline",
+    // option-arguments that themselves contain `=` (several, leading, trailing), empty ones, abbreviated names
+    "--rcfile=a=b", "--profile==x", "--rc=x=", "--pro=a=b=c", "--rcfile=", "--rcfile", "a=b", "=", "--profile=a=b", "--errexit=x=y",
 ];
 const K_TOKENS: [&str; 38] = [
     "-s", "-n", "-l", "-v", "-lv", "INT", "TERM", "int", "SIGINT", "sigint", "9", "0", "-9", "-INT", "-int", "-SIGINT",
